@@ -5,6 +5,9 @@ use std::io::{BufRead, BufReader, Write};
 use std::panic::{catch_unwind, AssertUnwindSafe};
 
 pub fn quiet_panics() {
+    if std::env::var("VERIF_LOUD").is_ok() {
+        return;
+    }
     std::panic::set_hook(Box::new(|_| {}));
 }
 
